@@ -217,4 +217,14 @@ Proof.
   set (v := age_units period now ts) in *. clearbody v. f_equal.
   destruct c; cbn; [destruct (Z.leb_spec 0 v)|destruct (Z.leb_spec 0 v)|destruct (Z.ltb_spec v 0)]; try lia; reflexivity.
 Qed.
+(* whatever the measured age is (negative for a timestamp in the future), exactly one of N, +N, -N holds *)
+Theorem imatches_trichotomy n v :
+  (imatches (EqualTo n) v = true /\ imatches (MoreThan n) v = false /\ imatches (LessThan n) v = false) \/
+  (imatches (EqualTo n) v = false /\ imatches (MoreThan n) v = true /\ imatches (LessThan n) v = false) \/
+  (imatches (EqualTo n) v = false /\ imatches (MoreThan n) v = false /\ imatches (LessThan n) v = true).
+Proof.
+  destruct (Z.lt_ge_cases v 0) as [Hneg|Hpos].
+  - right. right. cbn. destruct (Z.leb_spec 0 v); [lia|]. destruct (Z.ltb_spec v 0); [|lia]. auto.
+  - rewrite !imatches_nonneg by lia. apply trichotomy.
+Qed.
 Theorem newer_strict e r : newer e r = true <-> r < e. Proof. apply Z.ltb_lt. Qed.
